@@ -78,6 +78,9 @@ def generate(rng, tier):
         yield c01.build(meta)
     yield from _iterator_cases(rng, tier)
     yield from _reader_and_skip_cases(rng, tier)
+    # Debug / Display / name tables of the number types (ether types, ip numbers, ARP hardware ids, NDP option
+    # types, layers) rendered for every value; the lists of IPv6 extension header numbers compared
+    yield Case(["impl.bf.fmt_tables"], {"iter": "fmt", "d": "00000000"})
 
 
 def is_trivial(c):
@@ -100,6 +103,8 @@ def oracle(c):
         if o is None:
             out.append(("no-output", {"line": line[:200]}))
             continue
+        if line == "impl.bf.fmt_tables" and o != "ok(rendered)":
+            out.append(("rendering-of-number-types", {"impl": o[:300]}))
         if o == "panic" or "panic" in o:
             out.append(("panic", {"line": line[:300], "impl": o[:300]}))
         if "runaway" in o:
